@@ -35,7 +35,10 @@ MS = ['memstats__incMemUsed', 'memstats__decMemUsed']
 STUBS = ['forest__deleteNode', 'memstats__incMemUsed', 'memstats__decMemUsed',
          'node_headers__shrinkHandleList', 'node_headers__expandHandleList']
 
-def job(name, enforce, replace=(), props=('C06', 'C07'), **kw):
+C07_JOBS = {'lastUnlink', 'uncacheNode', 'lastUncache', 'cacheNode', 'recycleNodeHandle', 'getFreeNodeHandle', 'swapNodes'}
+
+def job(name, enforce, replace=(), props=None, **kw):
+    props = props or (('C06', 'C07') if name in C07_JOBS else ('C06',))
     d = dict(name=name, entry='h_' + name, enforce=enforce, replace=list(replace), props=list(props))
     d.update(kw)
     return d
